@@ -135,8 +135,8 @@ func oracleFrames(rep *report, r *rng, checkLen, checkSum bool) {
 					bodyBytes = bb
 				}
 				before := dumpMsg(m)
-				pre, consumed, hdesc := r.history(last)
-				st, out, _ := encodeInto(m, pre, consumed, r.intn(3)*32)
+				pre, consumed, hdesc, spare := r.history(last)
+				st, out, _ := encodeInto(m, pre, consumed, spare)
 				rep.eval("frame/"+t.Name+"/"+hdesc, before+hx(pre))
 				in := inputOf(t, "value", before, "prior_unread_hex", hx(pre), "consumed_bytes", len(consumed), "history", hdesc)
 				if st != "ok" {
@@ -292,8 +292,8 @@ func oracleC06(rep *report, r *rng) {
 					encodeFresh(fm)
 				}
 			}
-			pre, consumed, hdesc := r.history(last)
-			st, out, _ := encodeInto(m, pre, consumed, r.intn(3)*24)
+			pre, consumed, hdesc, spare := r.history(last)
+			st, out, _ := encodeInto(m, pre, consumed, spare)
 			rep.eval("append/"+t.Pkg+"/"+hdesc, before+hx(pre))
 			in := inputOf(t, "value", before, "prior_unread_hex", hx(pre), "consumed_bytes", len(consumed), "history", hdesc, "tag", tag)
 			if st != "ok" {
@@ -1058,7 +1058,7 @@ func oracleC17(rep *report, r *rng) {
 			var pre, consumed []byte
 			hdesc := "empty"
 			if k != 0 {
-				pre, consumed, hdesc = r.history(last)
+				pre, consumed, hdesc, _ = r.history(last)
 			}
 			inp := inputOf(t, "value", before, "kind", how, "prior_unread_hex", hx(pre), "consumed_bytes", len(consumed), "history", hdesc)
 			watch("Encode "+t.QName(), inp)
@@ -1129,6 +1129,13 @@ func oracleC18(rep *report, r *rng) {
 					err := writePrim(p, val, buf)
 					rep.eval("prim/"+kind, fmt.Sprint(p.text(), n))
 					inp := map[string]any{"helper": p.text(), "length": n, "prefix_max": mx}
+					if n > mx && err != nil {
+						// the same call on a buffer that already has room for everything
+						buf = &bytes.Buffer{}
+						buf.Grow(1 << 20)
+						err = writePrim(p, val, buf)
+						inp["buffer"] = "pre-grown 1 MiB"
+					}
 					if n > mx {
 						if err == nil {
 							inp["prefix_written_hex"] = hx(buf.Bytes()[:widthOf[c]])
@@ -1166,6 +1173,7 @@ func oracleC18(rep *report, r *rng) {
 			if mx > 65535 {
 				continue
 			}
+			var atLimit any
 			for _, n := range []int{mx, mx + 1, 70000} {
 				if rep.failed() {
 					return
@@ -1188,6 +1196,18 @@ func oracleC18(rep *report, r *rng) {
 				st, enc := encodeFresh(m)
 				rep.eval("msg/"+f.Wire, fmt.Sprint(t.Id, i, n))
 				inp := inputOf(t, "field", f.Name, "length", n, "prefix_max", mx)
+				if n == mx {
+					atLimit = m
+				}
+				if n == mx+1 && st != "ok" {
+					// the refusal must not depend on how much room the caller's buffer happens to have
+					for _, shape := range []string{"pre-grown-4MiB", "reset-after-a-large-legal-message"} {
+						if st != "ok" {
+							st, enc = encodeShaped(m, shape, atLimit)
+							rep.eval("msg/"+f.Wire+"/"+shape, fmt.Sprint(t.Id, i, n))
+						}
+					}
+				}
 				if n > mx {
 					if st == "ok" {
 						rep.fail(failure{Oracle: "overflow-refused", Type: t.QName(), What: fmt.Sprintf("field %s with %d entries/bytes (prefix maximum %d) encoded without error", f.Name, n, mx), Input: inp})
